@@ -205,6 +205,25 @@ def _random(draw):
     return {'s': s, 'k': 'triples'}
 
 
+STRING_ALPHA = ['"', '\\', 'a', ' ', 'n']
+STRING_TEMPLATES = ['(a :r %s)', '(a / %s)', '(a :r %s :s "t")', '%s', 'r(a, %s)', 'r(a, %s) ^ s(b, "t")']
+
+
+def _stratom_chunks(tier):
+    return [{'t': i, 'L': 5 if tier == 'quick' else 7} for i in range(len(STRING_TEMPLATES))]
+
+
+def _stratom_cases(ch):
+    tpl = STRING_TEMPLATES[ch['t']]
+    k = 'triples' if tpl.startswith('r(') else None
+    for ch2 in strings.prefix_chunks(STRING_ALPHA, ch['L'], 1):
+        for x in strings.strings_of(ch2, STRING_ALPHA, ch['L'], 1):
+            c = {'s': tpl % x}
+            if k:
+                c['k'] = k
+            yield c
+
+
 def stages(tier):
     L = 5 if tier == 'quick' else 6
     return [
@@ -221,5 +240,8 @@ def stages(tier):
              'that start with "(", all of length <= 4 / 6 otherwise'),
         Enum('triple-token-sequences', _ttokseq_chunks, _ttokseq_cases,
              'all sequences of <= 5 (quick) / 6 (thorough) tokens over a 13-token conjunction vocabulary'),
-        Hyp('random', _random, 10000, 300000),
+        Enum('string-atoms', _stratom_chunks, _stratom_cases,
+             'every string of length <= 5 (quick) / 7 (thorough) over quote, backslash, a, blank, n placed as target, concept, bare text and '
+             'conjunction target (terminated, unterminated, escaped quotes and backslashes in every position)'),
+        Hyp('random', _random, 7000, 300000),
     ]
